@@ -1,5 +1,5 @@
 From Coq Require Import List Arith Bool String.
-From Wire Require Import Sets Acyclic Solve Names Front Exec Model Emit Cli CopyAst ModelThms NamesThms Bridge ProcessWF Perm PermModel.
+From Wire Require Import Sets Acyclic Solve Names Front Exec Model Emit Cli CopyAst ModelThms NamesThms Bridge ProcessWF Perm PermModel EmitThms.
 Import ListNotations.
 
 (* The property theorems.  This file contains nothing but statements closed by [exact lemma] and the
@@ -96,6 +96,23 @@ Theorem C10_solve_depends_on_lookups_only : forall pm pm' : pmap entry,
   forall root args out, solve pm root args out = solve pm' root args out.
 Proof. exact solve_map_eq. Qed.
 Print Assumptions C10_solve_depends_on_lookups_only.
+
+(* ------------------------------------------------------------------ C14 (file level) *)
+(* whatever injectors a file holds: import aliases and value-variable names are pairwise distinct and none
+   is a name of the package scope *)
+Theorem C14_file_names_distinct : forall (E : env) (js : list (injector * list valinfo * list call)),
+  GInv E (inject_all E js (mkG [] [])).
+Proof. exact file_names_distinct. Qed.
+Print Assumptions C14_file_names_distinct.
+
+(* the two-pass design: the pass whose text is kept allocates no alias, and its parameter, local, cleanup and
+   error names are pairwise distinct and differ from every alias, value variable and package-scope name *)
+Theorem C14_emitted_pass_names_fresh : forall (E : env) inj cs g,
+  let g2 := snd (inject_pass E inj cs g) in
+  let ig := pass_ig E inj cs g2 in
+  names_ok ig /\ locals_fresh E ig g2 /\ ~ In (ig_err ig) (file_names E g2) /\ snd (inject_pass E inj cs g2) = g2.
+Proof. exact emitted_pass_names_fresh. Qed.
+Print Assumptions C14_emitted_pass_names_fresh.
 
 (* ------------------------------------------------------------------ C09 *)
 Theorem C09_results : forall rs c e, func_output rs = FoOk c e <-> legal_results rs c e.
